@@ -373,51 +373,92 @@ func ruleP09Notation(p *Prog, r *Report) {
 			continue
 		}
 		for _, ret := range returnsOf(f) {
-			var leaves []ssa.Value
-			catLeaves(retResult(ret, 0), &leaves, 0)
-			var parts []string
-			for _, l := range leaves {
-				if s, isS := constString(l); isS {
-					parts = append(parts, fmt.Sprintf("%q", s))
-					continue
+			// The text is described once for each value of UseSpacesAroundDash: constants and
+			// whatever selects between them (a variable, a phi, a helper) collapse to the string
+			// that applies; the two value parts stay symbolic.
+			describe := func(with bool) string {
+				var leaves []ssa.Value
+				catLeaves(retResult(ret, 0), &leaves, 0)
+				var parts []string
+				lit := ""
+				flush := func() {
+					if lit != "" {
+						parts = append(parts, fmt.Sprintf("%q", lit))
+						lit = ""
+					}
 				}
-				if ph, isPhi := strip(l).(*ssa.Phi); isPhi {
-					// the space variable
-					vals := map[string]bool{}
-					for i, e := range ph.Edges {
-						s, _ := constString(e)
-						pb := ph.Block().Preds[i]
-						with := true
-						for _, g := range append(guardsOf(pb), edgeGuard(pb, ph.Block())...) {
-							if _, fld := fieldLoad(g.Cond); fld == "UseSpacesAroundDash" {
-								with = g.Pol
+				for _, l := range leaves {
+					if n, recv, _, _ := methodCall(l); n == "ToString" {
+						n2, _, _, _ := methodCall(recv)
+						if n2 == "" {
+							if _, fld := fieldLoad(recv); fld == "start" {
+								n2 = "Start"
+							} else if fld == "end" {
+								n2 = "End"
 							}
 						}
-						vals[fmt.Sprintf("%q/%v", s, with)] = true
+						flush()
+						parts = append(parts, n2+".ToString")
+						continue
 					}
-					if vals[`" "/true`] && vals[`""/false`] {
-						parts = append(parts, "SPACE")
-					} else {
-						parts = append(parts, "?space")
+					if c, _ := callOf(l); c != nil && staticCallee(c) != nil && staticCallee(c).String() == "strings.Repeat" {
+						flush()
+						parts = append(parts, "PLACEHOLDER")
+						continue
 					}
-					continue
+					// a string that may depend on the flag: the alternatives consistent with `with`
+					vals := map[string]bool{}
+					for _, rw := range valueRows(l, 0, map[ssa.Value]bool{}) {
+						consistent := true
+						for _, g := range rw.guards {
+							if _, fld := fieldLoad(g.Cond); fld == "UseSpacesAroundDash" && g.Pol != with {
+								consistent = false
+							}
+						}
+						if !consistent {
+							continue
+						}
+						// the row may itself be a concatenation of constants
+						var sub []ssa.Value
+						catLeaves(rw.val, &sub, 0)
+						txt, ok := "", true
+						for _, sv := range sub {
+							cs, isS := constString(sv)
+							if !isS {
+								ok = false
+							}
+							txt += cs
+						}
+						if ok {
+							vals[txt] = true
+						} else {
+							vals["\x00?"] = true
+						}
+					}
+					if len(vals) != 1 {
+						flush()
+						parts = append(parts, "?")
+						continue
+					}
+					for v := range vals {
+						if v == "\x00?" {
+							flush()
+							parts = append(parts, "?")
+						} else {
+							lit += v
+						}
+					}
 				}
-				if n, recv, _, _ := methodCall(l); n == "ToString" {
-					n2, _, _, _ := methodCall(recv)
-					parts = append(parts, n2+".ToString")
-					continue
-				}
-				if c, _ := callOf(l); c != nil && staticCallee(c) != nil && staticCallee(c).String() == "strings.Repeat" {
-					parts = append(parts, "PLACEHOLDER")
-					continue
-				}
-				parts = append(parts, "?")
+				flush()
+				return strings.Join(parts, "+")
 			}
-			got := strings.Join(parts, "+")
-			want := `Start.ToString+SPACE+"-"+SPACE+End.ToString`
+			end := "End.ToString"
 			if tn == "openRange" {
-				want = `Start.ToString+SPACE+"-"+SPACE+PLACEHOLDER`
+				end = "PLACEHOLDER"
 			}
+			gotWith, gotWithout := describe(true), describe(false)
+			want := `Start.ToString+" - "+` + end + ` / Start.ToString+"-"+` + end
+			got := gotWith + " / " + gotWithout
 			r.check(got == want, rule, tn+":layout", p.instrPos(ret), tn+" prints as "+want, fmt.Sprintf("%s prints as %s, expected %s", tn, got, want))
 		}
 	}
